@@ -44,7 +44,79 @@ def bounds(tier, seed):
     }
 
 
+def _rerun_case(case):
+    """error path: a run() that raises inside its k-th trajectory (the caller catches it), then run() again on the SAME backend object -
+    the second run must aggregate exactly its own trajectories (compared with a fresh backend object)"""
+    import pulser
+    import emu_mps as m
+    import emu_sv as sv
+    import emu_mps.mps_backend_impl as impl_mod
+
+    be, n, k_fail = case["backend"], case["n"], case["fail_at"]
+    mod = sv if be == "sv" else m
+    coords = kit.SHAPES["pair"] if be == "sv" else kit.SHAPES["bent3"]
+    spec = {"coords": coords, "device": "mock", "basis": "rydberg", "pulses": [{"amp": ["const", 40, 20.0], "det": ["const", 40, 5.0], "phase": 0.2}]}
+    seq = kit.build_sequence(spec)
+    label = " ".join(f"{k}={v}" for k, v in case.items())
+    zs = [[-1.5, 0.0, 2.0][(k + n) % 3] for k in range(n)]
+    nm = pulser.NoiseModel(amp_sigma=0.2)
+    obs = [mod.Occupation(evaluation_times=[1.0]), mod.BitStrings(evaluation_times=[1.0], num_shots=5)]
+    backend_cls = sv.SVBackend if be == "sv" else m.MPSBackend
+    orig = backend_cls.__dict__["_run_from_sequence_data"]
+
+    def make():
+        if be == "sv":
+            return sv.SVBackend(seq, config=sv.SVConfig(dt=10, observables=obs, n_trajectories=n, log_level=logging.CRITICAL, gpu=False, noise_model=nm))
+        return m.MPSBackend(seq, config=m.MPSConfig(dt=10, precision=1e-8, observables=obs, n_trajectories=n, log_level=logging.CRITICAL, num_gpus_to_use=0, noise_model=nm))
+
+    def run(backend, fail_at=None):
+        calls = [0]
+
+        def wrapper(sequence_data, config):
+            i = calls[0]
+            calls[0] += 1
+            if fail_at is not None and i == fail_at:
+                raise RuntimeError("injected failure inside a trajectory (e.g. a user observable that raises)")
+            return orig.__func__(sequence_data, config)
+
+        try:
+            backend_cls._run_from_sequence_data = staticmethod(wrapper)
+            with contextlib.redirect_stdout(io.StringIO()), seams.pulser_np_random(normal=[[z] for z in zs]), seams.torch_multinomial(seams.ScriptedMultinomial(answer_fn=_first)):
+                return backend.run()
+        finally:
+            backend_cls._run_from_sequence_data = orig
+
+    try:
+        fresh = run(make())
+        b = make()
+        try:
+            run(b, fail_at=k_fail)
+            return result(False, sig="harness|failure-not-delivered", msg=f"{label}: the injected failure did not reach the caller", outcome="nofail")
+        except RuntimeError:
+            pass
+        again = run(b)
+    except Exception as e:
+        return result(False, sig=f"raises|rerun|{be}|{type(e).__name__}", msg=f"{label}: {type(e).__name__}: {str(e)[:300]}", outcome="raise")
+    o1 = np.real(runner.to_np(runner.get_at(fresh, "occupation", 1.0))).astype(float)
+    o2 = np.real(runner.to_np(runner.get_at(again, "occupation", 1.0))).astype(float)
+    s1, s2 = sum(runner.get_at(fresh, "bitstrings", 1.0).values()), sum(runner.get_at(again, "bitstrings", 1.0).values())
+    if np.abs(o1 - o2).max() > 1e-10 or s1 != s2 or s2 != 5 * n:
+        return result(False, sig=f"rerun-after-failure|{be}", msg=f"{label}: run() after a run that failed in trajectory {k_fail}: occupation {np.round(o2, 6).tolist()} with {s2} shots, a fresh backend gives {np.round(o1, 6).tolist()} with {s1} shots", outcome="stale")
+    return result(True, outcome=["rerun", be, n, k_fail, rnd(o1, 5)], transitions=3 * n, nontrivial=True)
+
+
+def _first(probs, num_samples, k):
+    p = probs.detach().cpu().numpy().astype(float)
+    if p.ndim == 1:
+        return [int(np.flatnonzero(p > 1e-14 * p.sum())[0])] * num_samples
+    return [[int(np.flatnonzero(r > 1e-14 * r.sum())[0])] * num_samples for r in p]
+
+
 def cases(tier, seed):
+    for be in ("sv", "mps"):
+        for n in (2, 3):
+            for k_fail in range(1, n):
+                yield {"family": "rerun", "backend": be, "n": n, "fail_at": k_fail}
     ns = [1, 2, 3, 4, 5] + ([8, 20, 40] if tier == "thorough" else [])
     for be in ("sv", "mps"):
         natoms = 2 if be == "sv" else 3
@@ -88,6 +160,8 @@ def run_case(case):
     import emu_sv as sv
     import emu_mps.mps_backend_impl as impl_mod
 
+    if case.get("family") == "rerun":
+        return _rerun_case(case)
     be, noise, n, shots = case["backend"], case["noise"], case["n"], case["shots"]
     mod = sv if be == "sv" else m
     coords = kit.SHAPES["pair"] if be == "sv" else kit.SHAPES["bent3"]
